@@ -192,3 +192,20 @@ class FGen:
             self.feats.add("concat-across-lines")
             return f"x = ({F}\n     {self.pick([self.plain_string(), self.literal()])})\n"
         return f"def g(a={F}): return {self.literal()}\n"
+
+
+# ---- f-string text soup: literal pieces made of the characters the scanners treat specially ------------------------------
+SOUP_PIECES = ["\\t", "\\n", "\\\\", "\\x41", "\\N{DIGIT ONE}", "\\", '"', "'", "'''", '"""', " + ", "x", " ", ", ", "{a}", "{b!r}", "{c:>4}", "{d:\\t>5}", "{e:{w}}", "{{", "}}", "{f=}", "#", "\\'", '\\"', "\\{", "é", "{g:'^3}", '{h:"^3}', ":", "!"]
+
+
+def text_soup(rnd):
+    """an f-string whose text is a random run of backslashes, quotes of every kind, braces and fields, in every delimiter and
+    prefix; most are valid for at least one delimiter -- whether one is, is for the oracle (CPython) to say"""
+    pre = rnd.choice(["f", "f", "rf", "F", "fR", "Rf"])
+    q = rnd.choice(["'", '"', "'''", '"""', '"""', "'''"])
+    body = "".join(rnd.choice(SOUP_PIECES) for _ in range(rnd.randrange(1, 7)))
+    if len(q) == 3 and rnd.random() < 0.3:
+        i = rnd.randrange(len(body) + 1)
+        body = body[:i] + "\n" + body[i:]
+    lead = rnd.choice(["x = ", "", "f(", "y = 'p' "])
+    return lead + pre + q + body + q + (")" if lead == "f(" else "") + "\n"
